@@ -135,6 +135,34 @@ def gen_cases(rng, tier, info):
         cases.append(Case("inv-%d" % j, h.cmds))
     for name, h in G.scenario_histories(rng, raw=True):
         cases.append(Case("scn-" + name, h.cmds))
+    # files whose _Validation table describes tables that do not exist (real-world packages describe every standard table
+    # there): creating such a table collides with those rows at the LAST of the three catalog inserts -- it must be refused
+    # as a whole; dropping an absent table must not touch them either
+    import msienc
+    from props import c02
+    for j in range(6 if tier == "quick" else 60):
+        tables = {"Keep": ([mk("K", "i16", pk=True), mk("V", ("str", 0), null=True)], [[1, "kept"], [2, "x"]])}
+        ghost_cols = [mk("Id", "i16", pk=True), mk("Name", ("str", 32), null=True, cat="Text"), mk("Extra", "i32", null=True)]
+        orphans = [("Ghost", c) for c in ghost_cols[:2]] + [("Phantom", mk("P", "i16", pk=True))]
+        opts = dict(long_refs=(j % 2 == 1), holes=0, dups=0, overcount=0, stale=0, validation=True, shuffle_catalog=False,
+                    odd_int_sizes=False, layout="plain")
+        clsid, entries, expected = msienc.encode_db(rng, j % 3, 65001, tables, [(2, 30, "t")], {}, orphan_validation=orphans, **opts)
+        db = c02.start_db(j % 3, 65001, tables, {}, opts, expected)
+        h = G.History(rng, j % 3)
+        h.db = db.clone()
+        h.cmds = [msienc.enc_open_raw(clsid, entries)]
+        h.obs()
+        variants = [ghost_cols, ghost_cols[:1], [mk("Other", "i16", pk=True)], ghost_cols[1:] + [mk("Z", "i16", pk=True)],
+                    [mk("Id", ("str", 8), pk=True)], ghost_cols[::-1]]
+        h.add_table("Ghost", variants[j % len(variants)]); h.obs()
+        h.drop_table("Phantom"); h.obs()                     # absent: NotFound, and its _Validation row stays
+        h.add_table("Phantom", [mk("Q", "i16", pk=True)]); h.obs()   # no colliding column: accepted
+        h.drop_table("Phantom"); h.obs()                     # now the orphan row goes with it (DELETE ... WHERE Table = name)
+        h.flush(); h.raw()
+        h.reopen(); h.obs()
+        c = Case("orphan-%d" % j, h.cmds)
+        c.start_db = db
+        cases.append(c)
     info.update({"histories": n, "invalid_calls": n_calls})
     return cases
 
@@ -146,7 +174,7 @@ def nontrivial(case):
 def oracle(ctx):
     bad = []
     for c, outs in zip(ctx.cases, ctx.impl_out):
-        for f in G.walk(c.cmds, outs, decode=lambda cp, raw: raw.decode("utf-8", "replace")):
+        for f in G.walk(c.cmds, outs, decode=lambda cp, raw: raw.decode("utf-8", "replace"), start_db=getattr(c, "start_db", None)):
             if f["kind"] in KINDS:
                 bad.append(f)
                 break
